@@ -1,6 +1,7 @@
 // unit `codec` : get_resolution / deserialize / serialize against the C05 layout specification
 //@include inc/base.rs
 //@include inc/codec_spec.rs
+//@include inc/codec_lemmas.rs
 verus! {
 
 //@extract const FIRST_HILBERT_RESOLUTION from src/core/serialization.rs
